@@ -6,7 +6,7 @@ from typing import Any
 from torch.optim.lr_scheduler import _LRScheduler as TorchScheduler
 
 from ..core.serializable import JSONSerializable
-from ..core.utils import get_class, register_class
+from ..core.utils import get_class, register_class, restore_int_keys
 
 
 @register_class
@@ -26,7 +26,15 @@ class Scheduler(JSONSerializable):
         return self.scheduler.state_dict()
 
     def load_state_dict(self, state_dict: dict[str, Any]) -> None:
-        self.scheduler.load_state_dict(state_dict)
+        restored = {}
+        for key, value in state_dict.items():
+            if isinstance(value, dict):
+                # dictionaries keyed by epoch (the milestones of MultiStepLR, a Counter)
+                # come back from a JSON checkpoint with string keys
+                klass = type(getattr(self.scheduler, key, value))
+                value = klass(restore_int_keys(value))
+            restored[key] = value
+        self.scheduler.load_state_dict(restored)
 
     @classmethod
     def from_json(
